@@ -47,6 +47,8 @@ C15_PARTIAL = [
     'unknown_fields_skipped is stated for insertion between complete fields of a struct body whose other fields are well-formed packings; insertion into arbitrary (malformed) buffers is covered by correspondence only',
 ]
 
+LOG_CRC = 'CRC-32C is a parameter of the log theorems (any 32-bit checksum); the driver instantiates it with a Lean table-driven CRC-32C (check value 0xE3069283 proved by kernel evaluation) and every frame checksum the real crc32c crate wrote is compared byte-for-byte'
+
 PROPS = {
     'C01': {
         'trusted': [STEP, 'dumped store states are read back through Sst::cursor / MemTable::cursor of the implementation'],
@@ -156,5 +158,17 @@ PROPS = {
                     'the alphabet translation (Sigma: code point -> dense symbol, order preserving) is modelled as a shift by one; Sigma itself and the serialisation format are tied by correspondence only'],
         'level_text': 'Partial. Lean theorems, all about executable models: binary search (partition_by) returns the partition point; the BitVector trait default select/select0 return the least position of a given rank/rank0 and are defined exactly up to the number of set bits; rank0 counts clear bits; rank(select k) = k. For every text, every strictly increasing arrangement of the suffixes of text+end-marker (the only hypothesis left: it is what SA-IS must deliver) and every needle over occurring or absent symbols: Sigma::sa_range_for + backward search over psi return exactly the block of suffixes prefixed by the needle, count equals the number of occurrences in the original text, search reports exactly the occurrence positions in ascending order, the empty needle counts every position; over the record-boundary bit vector of every admissible division, records = number of boundaries, lookup(offset) = (boundaries <= offset) - 1, offset_of(r) = r-th boundary, and retrieve(r) (select, select, inverse suffix array, one psi step per symbol) returns the text between the r-th boundary and the next. Tied to scrunch by a three-way run on every seed: real CompressedDocument vs ReferenceDocument vs naive scan (oracle) vs the Lean model (len, records, the suffix array and psi read back from the serialised index, count and positions of exhaustive/sampled patterns, offset->record for every offset, offset_of and retrieve of every record, before and after re-parsing), and seven bit-vector implementations vs List Bool vs Vec<bool> at every argument.',
         'level_note': 'Trusted: Lean kernel; axioms propext, Classical.choice, Quot.sound; SA-IS, the succinct encodings (RRR, cf-RRR, sparse, wavelet tree, Huffman codes, sampled arrays) and the serialisation are covered by the correspondence/oracle run on generated inputs only, not by proof; the suffix order hypothesis is decided per input.',
+    },
+    'C12': {
+        'trusted': [LOG_CRC,
+                    'strace 6.x syscall log order (entry/exit lines) as the witness of write/fdatasync ordering in the traced concurrent runs',
+                    'the harness-side frame walker (used only to choose cut points, to group the observed batches into frames and for statistics; the model recomputes the file from the grouping)'],
+        'assumptions': [LOG_CRC,
+                        'a file damaged other than by truncation is outside C12 (C09); the malformed-input stream checks reader correspondence only',
+                        'after LogIterator::next has returned an error the iterator is not used again (the property says "then either ends or reports an error"); a second call would deliver entries of the partially assembled buffer',
+                        'concurrency: the queue theorems quantify over all interleavings of the modelled critical sections; the run-time check samples schedules (in-process and under strace)'],
+        'partial': [],
+        'level_text': 'Sequential log: for every batch list (every batch size up to TABLE_FULL_SIZE, the limit the reader itself enforces: covers MAX_BATCH_SIZE and the BLOCK_SIZE that WriteBatch accepts) the model reader returns exactly the appended batches from the model writer\'s bytes whatever the block alignment (append_read, log_roundtrip), every truncation delivers a prefix of the batches and nothing else (truncated_log_prefix, readSome_take_prefix for arbitrary bytes), bytes before a damage point are read identically (reads_agree_before_damage), and a crash between write/fdatasync/ack leaves a readable prefix containing every acknowledged batch (crash_prefix); the parameters are the ones extracted from sst/src/log.rs (good_real). Concurrent appends: the work-coalescing queue hands the core every input once in link order and returns each caller its own result for all interleavings (Wcq/WcqV), and a caller answered true by the fsync core is covered by a completed fdatasync (answered_true_is_durable). The model is tied to the code byte-for-byte: real LogBuilder output vs writeAll (whole file hash, 64 KiB chunk hashes, 96-byte windows round each block boundary, full hex for small files), real LogIterator drain vs model reader, every cut of small files and every cut within +-64 bytes of each frame/header/padding/block boundary of >=1 MiB files, and the final file of N-thread ConcurrentLogBuilder runs vs writeAll of the observed merge.',
+        'level_note': 'Trusted: Lean kernel; axioms propext, Classical.choice, Quot.sound; CRC-32C as a parameter; correspondence is agreement on generated cases only; durability at return is observed (strace ordering of write/fdatasync/return markers) on sampled schedules, the all-interleavings statement is about the queue model.',
     },
 }
